@@ -160,7 +160,7 @@ func c14History(c *engine.C, maxDepth int) []gCommit {
 		} else {
 			menu = append(menu, op{"modify", []gOp{{Kind: "modify", Path: existing[0]}}}, op{"add", nil}, op{"delete", []gOp{{Kind: "delete", Path: existing[0]}}},
 				op{"rename-in-dir", nil}, op{"rename-across-dirs", nil}, op{"rename-to-root", nil}, op{"binary", nil}, op{"empty", []gOp{}}, op{"merge", []gOp{{Kind: "merge"}}},
-				op{"modify+add", nil})
+				op{"modify+add", nil}, op{"rename+add-sorting-after", nil}, op{"rename+delete-sorting-after", nil})
 		}
 		o := menu[c.Choose(len(menu), pfx+"op")]
 		switch o.name {
@@ -170,6 +170,17 @@ func c14History(c *engine.C, maxDepth int) []gCommit {
 			o.ops = []gOp{{Kind: "binary", Path: "bin/" + fmt.Sprint(i) + ".dat"}}
 		case "modify+add":
 			o.ops = []gOp{{Kind: "modify", Path: existing[0]}, {Kind: "add", Path: newPath()}}
+		case "rename+add-sorting-after":
+			// a pure rename and a creation in one commit; the created path sorts after the new name, so its summary
+			// line follows the rename line
+			f := existing[0]
+			o.ops = []gOp{{Kind: "rename", Path: f, New: filepath.Join(filepath.Dir(f), "moved_"+filepath.Base(f))}, {Kind: "add", Path: fmt.Sprintf("zz/created%d.txt", i)}}
+		case "rename+delete-sorting-after":
+			f := existing[0]
+			o.ops = []gOp{{Kind: "rename", Path: f, New: "aa_first_" + filepath.Base(f)}}
+			if len(existing) > 1 {
+				o.ops = append(o.ops, gOp{Kind: "delete", Path: existing[len(existing)-1]})
+			}
 		case "rename-in-dir":
 			f := existing[0]
 			o.ops = []gOp{{Kind: "rename", Path: f, New: filepath.Join(filepath.Dir(f), "renamed_"+filepath.Base(f))}}
